@@ -644,19 +644,23 @@ End IndexMode.
 Lemma Qeq_bool_false : forall v, ~ v == 0 -> Qeq_bool v 0 = false.
 Proof. intros v H. destruct (Qeq_bool v 0) eqn:E; [|reflexivity]. apply Qeq_bool_iff in E. tauto. Qed.
 
-(* flux is untouched wherever the inverse variance is not zero (all four methods) *)
+(* flux is untouched wherever the inverse variance is not zero.  For traditional / noconst / nothing this
+   needs nothing else; `mean` overwrites every pixel that is not > 0, so there the pixel's inverse variance
+   must not be negative. *)
 Theorem aesthetics_support : forall meth flux iv i f v,
-  length iv = length flux -> nth_error flux i = Some f -> nth_error iv i = Some v -> 0 <= v -> ~ v == 0 ->
+  length iv = length flux -> nth_error flux i = Some f -> nth_error iv i = Some v -> ~ v == 0 ->
+  (meth = Mean -> 0 <= v) ->
   exists out, nth_error (aesthetics_model meth flux iv) i = Some out /\ out == f.
 Proof.
-  intros meth flux iv i f v L Ef Ev Hv Hnz. unfold aesthetics_model.
+  intros meth flux iv i f v L Ef Ev Hnz Hv. unfold aesthetics_model.
   assert (Em : nth_error (map (fun v => Qeq_bool v 0) iv) i = Some false)
     by (rewrite nth_error_map, Ev; cbn; rewrite Qeq_bool_false by assumption; reflexivity).
   destruct (existsb (fun b => b) (map (fun v => Qeq_bool v 0) iv)); [|exists f; split; [exact Ef | reflexivity]].
   destruct meth.
   - apply maskinterp_unmasked; [exact I | rewrite map_length; exact L | exact Ef | exact Em].
   - apply maskinterp_unmasked; [exact I | rewrite map_length; exact L | exact Ef | exact Em].
-  - rewrite nth_error_map, nth_error_combine_opt, Ef, nth_error_map, Ev. cbn [option_map fst snd].
+  - specialize (Hv eq_refl).
+    rewrite nth_error_map, nth_error_combine_opt, Ef, nth_error_map, Ev. cbn [option_map fst snd].
     replace (Qltb 0 v) with true by (symmetry; apply Qltb_iff; lra). exists f. split; reflexivity.
   - exists f. split; [exact Ef | reflexivity].
 Qed.
@@ -676,4 +680,47 @@ Proof.
   destruct meth; try exact TN; try exact Ef.
   rewrite nth_error_map, nth_error_combine_opt, Ef, Ev. cbn [option_map fst snd].
   rewrite Qeq_bool_false by assumption. reflexivity.
+Qed.
+
+Lemma opt_Qeq_refl : forall a, opt_Qeq a a.
+Proof. intros [a|]; cbn; [reflexivity | exact I]. Qed.
+
+Lemma existsb_forallb_negb : forall l : list bool, existsb (fun b => b) l = false -> forallb negb l = true.
+Proof.
+  induction l as [|b l IH]; [reflexivity|]. cbn. destruct b; cbn; [discriminate | exact IH].
+Qed.
+
+(* M = S for aesthetics when no inverse variance is negative *)
+Theorem aesthetics_model_eq_spec : forall meth flux iv i,
+  length iv = length flux -> (forall v, In v iv -> 0 <= v) ->
+  opt_Qeq (nth_error (aesthetics_model meth flux iv) i) (nth_error (aesthetics_spec meth flux iv) i).
+Proof.
+  intros meth flux iv i L Hpos. unfold aesthetics_model, aesthetics_spec.
+  set (bad := map (fun v => Qeq_bool v 0) iv).
+  assert (Lb : length bad = length flux) by (unfold bad; rewrite map_length; exact L).
+  assert (MI : (if existsb (fun b => b) bad then maskinterp1_model flux bad None else flux) = maskinterp1_model flux bad None).
+  { destruct (existsb (fun b => b) bad) eqn:E; [reflexivity|].
+    unfold maskinterp1_model. rewrite (existsb_forallb_negb bad E). reflexivity. }
+  destruct meth.
+  - rewrite MI. apply maskinterp_model_eq_spec; [exact I | exact Lb].
+  - rewrite MI. apply maskinterp_model_eq_spec; [exact I | exact Lb].
+  - assert (G : map (fun v => Qltb 0 v) iv = map (fun v => negb (Qeq_bool v 0)) iv).
+    { apply map_ext_in. intros v Hv. specialize (Hpos v Hv). destruct (Qeq_bool v 0) eqn:E; cbn.
+      - apply Qeq_bool_iff in E. apply Qltb_false_iff. lra.
+      - apply Qeq_bool_neq in E. apply Qltb_iff. lra. }
+    rewrite G. set (mu := qsum _ / qnat _).
+    rewrite (nth_error_map _ _ (combine flux iv)), nth_error_combine_opt.
+    destruct (existsb (fun b => b) bad) eqn:E.
+    + rewrite nth_error_map, nth_error_combine_opt, nth_error_map.
+      destruct (nth_error flux i) as [f|], (nth_error iv i) as [v|]; cbn; try exact I.
+      destruct (Qeq_bool v 0); cbn; reflexivity.
+    + destruct (nth_error flux i) as [f|] eqn:Ef.
+      * assert (i < length iv)%nat by (rewrite L; apply nth_error_Some; congruence).
+        destruct (nth_error iv i) as [v|] eqn:Ev; [|apply nth_error_None in Ev; lia]. cbn.
+        assert (Hb : nth_error bad i = Some (Qeq_bool v 0)) by (unfold bad; rewrite nth_error_map, Ev; reflexivity).
+        destruct (Qeq_bool v 0) eqn:Ez; [|reflexivity]. exfalso.
+        assert (X : existsb (fun b => b) bad = true) by (apply existsb_exists; exists true; split; [eapply nth_error_In, Hb | reflexivity]).
+        congruence.
+      * destruct (nth_error iv i); exact I.
+  - destruct (existsb (fun b => b) bad); apply opt_Qeq_refl.
 Qed.
